@@ -33,7 +33,11 @@ CHECKS = {
              "surrogate-content-type-escapes (model deviates there, see "
              "model/Dispatch.v mk_ctype).",
         technique="Coq proof (case analysis over the exception ladder, "
-                  "invariant over all paths) + vm_compute correspondence"),
+                  "invariant over all paths) + vm_compute correspondence + "
+                  "source-to-Coq translation of Application.__request__, "
+                  "state_from_table, error_from_table, handler_from_before "
+                  "(control-flow skeleton and event trace) with proved "
+                  "equality to the model"),
     "C02": dict(
         text="Theorems: a regex engine for the route subset with a "
              "derivative acceptor proved equivalent to the relational "
@@ -58,7 +62,9 @@ CHECKS = {
              "let through; file-system facts are inputs.",
         technique="Coq proof (regex derivatives, backtracking matcher "
                   "soundness/completeness, list induction) + vm_compute "
-                  "correspondence"),
+                  "correspondence + source-to-Coq translation of "
+                  "handler_from_table, handler_from_default (precedence "
+                  "skeleton) with proved equality to the model"),
     "C03": dict(
         text="Theorems: for hook lists of any length the before hooks that "
              "run are exactly hooks 0..k in order (k = first stopping hook), "
@@ -72,7 +78,9 @@ CHECKS = {
         note="Same model as C01 (model/Dispatch.v); static file/directory "
              "leaves are one abstract leaf here and exercised in C12.",
         technique="Coq proof (induction over hook lists) + vm_compute "
-                  "correspondence of self-recorded traces"),
+                  "correspondence of self-recorded traces + source-to-Coq "
+                  "translation of the before/after hook loops of the request "
+                  "cycle with proved equality to the model"),
     "C04": dict(
         text="Theorems: status resolution = user handler for (s,method) with "
              "its result interpreted like an endpoint result, else built-in "
@@ -87,7 +95,9 @@ CHECKS = {
         note="Same model as C01; isinstance and the built-in table are "
              "parameters of the theorems; known finding abort-200-is-204.",
         technique="Coq proof (case analysis, list induction) + vm_compute "
-                  "correspondence"),
+                  "correspondence + source-to-Coq translation of "
+                  "state_from_table, error_from_table with proved equality to "
+                  "the model"),
     "C05": dict(
         text="Theorems: to_response/make_response for each return shape "
              "(text -> UTF-8 bytes, bytes verbatim, dict/list -> JSON text "
@@ -103,7 +113,9 @@ CHECKS = {
              "text); UTF-8 encoder re-implemented in the model and compared "
              "differentially.",
         technique="Coq proof (computation lemmas over the shape dispatch) + "
-                  "vm_compute correspondence"),
+                  "vm_compute correspondence + source-to-Coq translation of "
+                  "make_response, to_response, the automatic-header part of "
+                  "__start_response__ with proved equality to the model"),
     "C17": dict(
         text="Theorems about the modelled footprint: the status-table merge "
              "of the diagnostic page writes no pre-existing dictionary object "
@@ -125,8 +137,11 @@ CHECKS = {
              "census covers executed paths only; preemption between switch "
              "points inside CPython/C code is not explored; user handler "
              "state is the user's.",
-        technique="Coq proof (heap frame lemma, induction over schedules "
-                  "and histories) + state census + differential runs"),
+        technique="Coq proof (heap frame lemma, induction over schedules and "
+                  "histories) + state census + differential runs + a "
+                  "generated census of shared mutable objects, their writers "
+                  "and escapes (source-to-Coq translation, policy theorem by "
+                  "vm_compute)"),
     "C18": dict(
         text="Theorems: parse_range(render_ranges units rs) = {units: rs} "
              "for every list of first-last / first- / -suffix items with "
@@ -147,8 +162,10 @@ CHECKS = {
              "assumed; \\d/int() and str.lower modelled for ASCII / latin-1; "
              "the former finding param-backslash-before-next-param is fixed "
              "in /repo (697ccfd) and now inside the round-trip theorem.",
-        technique="Coq proof (lia over civil-date arithmetic, decimal "
-                  "lemmas, list induction) + vm_compute correspondence"),
+        technique="Coq proof (lia over civil-date arithmetic, decimal lemmas, "
+                  "list induction) + vm_compute correspondence + "
+                  "source-to-Coq translation of _parseparam, parse_header "
+                  "with proved equality to the model"),
     "C19": dict(
         text="Theorems: for EVERY sequence of registration/removal calls the "
              "model's views equal those of a declarative registry (map (kind, "
@@ -164,7 +181,9 @@ CHECKS = {
              "uri is identified with its compiled pattern; is_route with an "
              "empty method mask is refuted (outside the quantifier).",
         technique="Coq proof (refinement by induction over operation "
-                  "sequences) + vm_compute correspondence"),
+                  "sequences) + vm_compute correspondence + source-to-Coq "
+                  "translation of the registration methods of Application "
+                  "with proved equality to the model"),
     "C06": dict(
         text="Theorems over the model of Response/FileObjResponse/"
              "GeneratorResponse: for EVERY history of write()/.data calls the "
@@ -223,7 +242,10 @@ CHECKS = {
              "text values compared bytewise in the round-trip theorem; known "
              "finding text-field-multibyte-at-64k-cut.",
         technique="Coq proof (induction over reader lines with a three-phase "
-                  "invariant) + vm_compute correspondence"),
+                  "invariant) + vm_compute correspondence + source-to-Coq "
+                  "translation of read_lines_to_outerboundary, _write, "
+                  "make_file, valid_boundary with proved equality to the "
+                  "model"),
     "C09": dict(
         text="Theorems over the model of CachedInput.read/readline (loop "
              "with explicit fuel), for all bodies, declared lengths, block "
@@ -289,7 +311,9 @@ CHECKS = {
              "lenient-but-valid headers may be served or refused; nc replay "
              "is outside the property.",
         technique="Coq proof (case analysis over the credential ladder) + "
-                  "vm_compute correspondence"),
+                  "vm_compute correspondence + source-to-Coq translation of "
+                  "check_response, check_credentials, the check_digest "
+                  "handler with proved equality to the model"),
     "C12": dict(
         text="Theorems with NO hypothesis on the request path (any code "
              "points, NUL, repeated or missing leading slashes, dot "
@@ -329,7 +353,9 @@ CHECKS = {
              "'foreign secret never restores equal data' is proved only at "
              "the byte level (_partial), the rest is monitored.",
         technique="Coq proof (Z.lxor algebra, invariant over operation "
-                  "histories) + vm_compute correspondence"),
+                  "histories) + vm_compute correspondence + source-to-Coq "
+                  "translation of session.hidden with proved equality to the "
+                  "model"),
     "C14": dict(
         text="Theorems: for EVERY history of operations (construction, add, "
              "add_header with parameters, assignment, deletion, setdefault, "
@@ -350,7 +376,8 @@ CHECKS = {
              "codecs re-implemented and compared with CPython's.",
         technique="Coq proof (refinement by induction over operation "
                   "histories, lia-based UTF-8 round trip) + vm_compute "
-                  "correspondence"),
+                  "correspondence + source-to-Coq translation of the methods "
+                  "of class Headers with proved equality to the model"),
     "C15": dict(
         text="Model regenerated from the source on every run: "
              "harness/py2pages.py translates the nine built-in page functions "
@@ -407,7 +434,9 @@ CHECKS = {
              "other built-in pages receive no exception data at all (they "
              "only log it).",
         technique="Coq proof (computation/case analysis) + source-extracted "
-                  "literals + vm_compute correspondence"),
+                  "literals + vm_compute correspondence + source-to-Coq "
+                  "translation of the debug-info gate in handler_from_table "
+                  "with proved equality to the model"),
 }
 
 NOT_YET = "check not built yet (work in progress, see DESIGN.md section 10)"
